@@ -76,7 +76,7 @@ class Ctx:
 
     # ---- the GUARD rule
     def require_guard(self, rule, f, when, lhs, rhs, refusal=("err",), dominates=True, every_iteration=False,
-                      desc=None, key=None, ct=False, edge_filter=None):
+                      desc=None, key=None, ct=False, edge_filter=None, bypass=None):
         """Require a branch in f whose *refusing* edge is taken exactly when `lhs <when> rhs`.
         when in Eq/Ne/Lt/Le/Gt/Ge.  Operand order and negation are normalised.  The refusing edge
         must lead only to refusal returns; the branch must dominate all accepting returns (or, with
@@ -111,7 +111,7 @@ class Ctx:
                     else:
                         near.append((e, "check is not on every iteration of its loop"))
                 elif dominates:
-                    if g.dominates_accepts(e, refusal):
+                    if g.dominates_accepts(e, refusal, bypass):
                         cands.append(e)
                     else:
                         near.append((e, "check does not dominate every accepting return"))
